@@ -7,3 +7,5 @@ import JaxVerif.Properties.C08
 #print axioms JV.C08_arrays
 #print axioms JV.C08_reject_binds_nothing
 #print axioms JV.C08_generated_good
+#print axioms JV.C08_source_instancecheck
+#print axioms JV.C08_source_checkL
